@@ -128,6 +128,9 @@ Definition run_archive (op : bytes) (args : list bytes) : bytes :=
       end
     | None => bad_case
     end
+  else if bytes_eqb op (c_ "offsets") then
+    show_res (fun l => jn "," (map (fun p => jn ":" [hex (cty (fst p)); dec (len (cdata (fst p))); dec (snd p)]) l))
+             (chunk_list (H_ 0%nat))
   else if bytes_eqb op (c_ "seek") then
     match read_header read_chunk_stream (H_ 0%nat) with
     | Ok (_, r) => show_res (fun p => dec (fst p) ++ c_ " " ++ showb (snd p)) (seek_loop (S (length r)) r 0 false)
